@@ -55,7 +55,11 @@ def gen_case(rng: random.Random, n_ops: int, profile: str = "mixed") -> list[str
         else:
             lines.append(f"user\t{k}")
             nid += 1
-    lines += ["tick"] * 3
+    lines += ["tick"] * 2
+    if rng.random() < 0.7:
+        lines += ["user\tstop", "tick", "tick"]      # most cases end with the run ending
+    else:
+        lines += ["tick"]
     return lines
 
 
@@ -161,6 +165,18 @@ def oracle_c11(lines: list[str], answers: list[str]) -> list[tuple[str, str]]:
                     kind = "same-command" if name_of[a1] == name_of[a2] else "overlapping-commands"
                     out.append((f"two-instances-execute-in-one-tick:{kind}",
                                 f"op {n}: instances #{a1} (K{name_of[a1]}) and #{a2} (K{name_of[a2]}) both executed"))
+        # an instance that has ended (its exec raised, it completed, it was cancelled) is finalized by the end of the op
+        for e in o["ev"]:
+            if e[0] == "x":
+                ser, it, k = int(re.match(r"x(\d+)", e).group(1)), int(e.split(".")[1].split("k")[0]), int(e.split("k")[1])
+                if spec["fail"][k] == it and f"f{ser}" not in o["ev"]:
+                    out.append(("failed-instance-not-finalized", f"op {n}: exec of #{ser} (K{k}) raised, no finalize"))
+                if spec["fail"][k] != it and spec["dur"][k] > 0 and it + 1 >= spec["dur"][k] and f"f{ser}" not in o["ev"]:
+                    out.append(("completed-instance-not-finalized", f"op {n}: #{ser} (K{k}) completed, no finalize"))
+        for k, rec in o["inst"].items():
+            if rec["serial"] is not None and ("c" in rec["state"].lstrip("0123456789") or "d" in rec["state"]):
+                out.append(("ended-instance-still-in-map",
+                            f"op {n}: #{rec['serial']} (K{k}) is cancelled/complete and still in uod.command_instances"))
         # when the run ends every instance that was initialised has been finalized
         if o["stop"] is not None:
             for ser, st in state.items():
@@ -238,7 +254,8 @@ def oracle_c12(lines: list[str], answers: list[str]) -> list[tuple[str, str]]:
                 if o["reply"] == "ok":
                     # which branch served it: the command's (it had started) or the node's
                     site = "uod-command" if "U" in t["marks"] else "node"
-                    out.append((f"unoffered-{f[0]}-accepted:{site}", f"op {n}: {ln!r} on item {t} answered ok"))
+                    concl = ":concluded" if any(c in t["marks"] for c in "DFX") else ""
+                    out.append((f"unoffered-{f[0]}-accepted:{site}{concl}", f"op {n}: {ln!r} on item {t} answered ok"))
                 elif not same:
                     out.append((f"rejected-{f[0]}-changed-state", f"op {n}: {ln!r}"))
             if not known and not same:
